@@ -8,6 +8,7 @@ mod seq;
 mod rcgen;
 mod rcworld;
 mod runner;
+mod sat;
 mod sched;
 mod shadow;
 mod templates;
